@@ -10,7 +10,8 @@ from . import _c06_common as cm
 ID = 'C05'
 LG = 'mitxgraders/listgrader.py'
 MK = 'mitxgraders/helpers/munkres.py'
-FILES = [LG, MK]
+BASE = 'mitxgraders/baseclasses.py'
+FILES = [LG, MK, BASE]
 
 EXPLANATION = (
     "Static role/normal-form/ordering rules over listgrader.py and munkres.py: (D1) get_ordered_input_list takes "
@@ -1005,6 +1006,9 @@ def _expand_paths(idx, stmts, env, depth=0):
     return out
 
 
+IDENTITY_TESTS = []
+
+
 def _perfect_atom(g, lists):
     """('perfect'|'imperfect'|'WRONG', text) if g is a quantifier over the entries about ok is True; else None."""
     if not (isinstance(g, ast.Call) and nf.callee_name(g) in ('all', 'any') and len(g.args) == 1
@@ -1021,6 +1025,8 @@ def _perfect_atom(g, lists):
     is_true = any(nf.match(q % ev, elt) is not None for q in ("%s['ok'] is True", "%s['ok'] == True", "%s['grade_decimal'] == 1"))
     not_true = any(nf.match(q % ev, elt) is not None for q in ("%s['ok'] is not True", "%s['ok'] != True", "%s['grade_decimal'] != 1",
                                                               "%s['grade_decimal'] < 1"))
+    if any(nf.match(q % ev, elt) is not None for q in ("%s['ok'] is True", "%s['ok'] is not True")):
+        IDENTITY_TESTS.append(gen.elt)
     name = nf.callee_name(g)
     if name == 'all' and is_true:
         return 'perfect', None
@@ -1035,10 +1041,78 @@ def _perfect_atom(g, lists):
     return None
 
 
+
+def _identity_safe(e):
+    """'safe'  : the value is one of the singletons True / False or a str constant whatever the operand types are
+       'unsafe': a rich comparison / arithmetic result whose type follows the operands (numpy.bool_ for a numpy scalar)
+       None    : unknown (a name, a call into other code)"""
+    if isinstance(e, ast.Constant):
+        return 'safe'
+    if isinstance(e, ast.Call) and isinstance(e.func, ast.Name) and e.func.id == 'bool':
+        return 'safe'
+    if isinstance(e, ast.Call) and isinstance(e.func, ast.Attribute) and e.func.attr == 'get' and isinstance(e.func.value, ast.Dict):
+        vals = list(e.func.value.values) + list(e.args[1:2])
+        kinds = [_identity_safe(v) for v in vals]
+        return 'safe' if all(k == 'safe' for k in kinds) else ('unsafe' if 'unsafe' in kinds else None)
+    if isinstance(e, ast.Subscript) and isinstance(e.value, ast.Dict):
+        kinds = [_identity_safe(v) for v in e.value.values]
+        return 'safe' if all(k == 'safe' for k in kinds) else ('unsafe' if 'unsafe' in kinds else None)
+    if isinstance(e, ast.IfExp):
+        kinds = [_identity_safe(e.body), _identity_safe(e.orelse)]
+        return 'safe' if all(k == 'safe' for k in kinds) else ('unsafe' if 'unsafe' in kinds else None)
+    if isinstance(e, ast.UnaryOp) and isinstance(e.op, ast.Not):
+        return 'safe'
+    if isinstance(e, ast.Compare):
+        if all(isinstance(o, (ast.Is, ast.IsNot, ast.In, ast.NotIn)) for o in e.ops):
+            return 'safe'
+        return 'unsafe'
+    if isinstance(e, ast.BoolOp):
+        kinds = [_identity_safe(v) for v in e.values]
+        return 'safe' if all(k == 'safe' for k in kinds) else ('unsafe' if 'unsafe' in kinds else None)
+    return None
+
+
+def _ok_identity(r, idx, ck, identity_based):
+    """The all-or-nothing test compares entry['ok'] with True by *identity*; that is only right if every producer of an
+    'ok' value hands out the singletons.  A comparison result (`grade == 1`) has the type of its operands: for a numpy
+    scalar grade it is numpy.bool_, which `is True` rejects, so a fully correct submission would be zeroed."""
+    construct = "ListGrader.check: identity test on entry['ok'] vs the producers of ok"
+    if not identity_based:
+        r.ok(construct, 'the perfection test does not depend on the identity of ok', ck.loc)
+        return
+    producers = []
+    conv = idx.func('mitxgraders.baseclasses.AbstractGrader.grade_decimal_to_ok')
+    for ret in lib.returns_of(conv.node):
+        # the raw expression: canonicalisation strips bool(...), which is exactly what makes a comparison identity-safe
+        producers.append((conv, ret, cm.deref(conv, ret.value), 'AbstractGrader.grade_decimal_to_ok returns'))
+    for f in idx.package_funcs():
+        if f.module.name.startswith('mitxgraders.') and '.tests' not in f.module.name and f is not conv:
+            for n in walk_own(f.node):
+                if isinstance(n, ast.Assign) and len(n.targets) == 1 and cm.sub_key(n.targets[0]) == 'ok':
+                    producers.append((f, n, n.value, "%s stores ['ok'] =" % f.qualname.split('mitxgraders.')[-1]))
+                elif isinstance(n, ast.Dict):
+                    for k, v in zip(n.keys, n.values):
+                        if isinstance(k, ast.Constant) and k.value == 'ok':
+                            producers.append((f, n, v, "%s builds {'ok': ...} with" % f.qualname.split('mitxgraders.')[-1]))
+    if not producers:
+        raise AnalysisError("no producer of an 'ok' value found")
+    bad = [(f, n, e, what) for f, n, e, what in producers if e is not None and _identity_safe(e) == 'unsafe']
+    if bad:
+        for f, n, e, what in bad:
+            r.violation(construct, "%s `%s`, a comparison whose result has the type of its operands (numpy.bool_ for a numpy scalar grade), "
+                        "while ListGrader.check decides perfection with `entry['ok'] is True` (identity): a fully correct submission is "
+                        "zeroed when partial_credit=False" % (what, short(e)), lib.loc(f, n),
+                        expected="True / False singletons (dict lookup, literal, bool(...)) or an equality test in ListGrader.check",
+                        found=short(e))
+    else:
+        r.ok(construct, '%d producers of ok return the singletons / pass values through' % len(producers), conv.loc)
+
+
 def d5_zeroing(ctx, idx):
-    r = ctx.rule('D5.ZERO', 'partial_credit=False: unless every entry is fully correct every entry gets ok=False and grade 0', floor=5)
+    r = ctx.rule('D5.ZERO', 'partial_credit=False: unless every entry is fully correct every entry gets ok=False and grade 0; the `is True` test only sees singletons', floor=6)
     with r:
         ck = idx.func(LGC + '.check')
+        del IDENTITY_TESTS[:]
         gbs = lib.calls_named(ck.node, 'get_best_result')
         body = list(ck.node.body)
         tail = body
@@ -1181,6 +1255,7 @@ def d5_zeroing(ctx, idx):
             r.undecided(construct + ' (perfect)', 'guards not evaluable: %s' % sorted(unknown_guards), where)
         else:
             r.ok(construct + ' (perfect)', 'zeroed exactly when some entry is not ok is True', where)
+        _ok_identity(r, idx, ck, bool(IDENTITY_TESTS))
 
 
 # ------------------------------------------------------------------------------- D6
@@ -1210,7 +1285,7 @@ def d7_solver(ctx, idx):
     reference (C06.D2 INIT, C06.D3 RESULT, C06.D4 STEPS) here as well, so a change of the solver is reported under this id."""
     from . import c06
     r = ctx.rule('D7.SOLVER', 'the assignment solver equals the reviewed Munkres reference (state re-initialised per solve, '
-                 'result extraction, step table, per-cell step effects) -- a pin to the reference, not a proof of optimality', floor=77)
+                 'result extraction, step table, per-cell step effects) -- a pin to the reference, not a proof of optimality', floor=78)
     with r:
         c06.solver_rules(r, idx)
 
@@ -1291,6 +1366,8 @@ MUTANTS = [
     Mutant('solver-find-smallest-or', MK, "                if (not self.row_covered[i]) and (not self.col_covered[j]):\n                    if self.C[i][j] is not DISALLOWED and minval >",
            "                if (not self.row_covered[i]) or (not self.col_covered[j]):\n                    if self.C[i][j] is not DISALLOWED and minval >", 'D7'),
     Mutant('solver-marked-not-reset', MK, "        self.marked = self.__make_matrix(self.n, 0)\n\n        done = False", "\n        done = False", 'D7'),
+    Mutant('ok-from-comparison', BASE, "        return {0: False, 1: True}.get(grade, 'partial')", "        if grade in (0, 1):\n            return grade == 1\n        return 'partial'", 'D5'),
+    Mutant('ok-stored-from-comparison', LG, "        result['ok'] = AbstractGrader.grade_decimal_to_ok(result['grade_decimal'])", "        result['ok'] = result['grade_decimal'] == 1 or (result['grade_decimal'] != 0 and 'partial')", 'D5'),
     # D6
     Mutant('validation-dropped', LG, "        self.validate_submission(answers, student_list)\n\n        # Group the inputs", "        # Group the inputs", 'D6'),
     Mutant('validation-only-ordered', LG, "        self.validate_submission(answers, student_list)\n\n        # Group the inputs",
@@ -1322,6 +1399,8 @@ BENIGN = [
     Benign('cost-explicit-own-count', LG, "            result['grade_decimal'] = consolidate_grades(grades)\n", "            result['grade_decimal'] = consolidate_grades(grades, len(grades))\n"),
     Benign('cost-scaled-percent', LG, "        return 1 - result['grade_decimal']", "        return 100 * (1 - result['grade_decimal'])"),
     Benign('cost-as-float', LG, "        return 1 - result['grade_decimal']", "        return float(1.0 - result['grade_decimal'])"),
+    Benign('ok-from-bool-of-comparison', BASE, "        return {0: False, 1: True}.get(grade, 'partial')", "        if grade in (0, 1):\n            return bool(grade == 1)\n        return 'partial'"),
+    Benign('perfect-by-equality-with-comparison-ok', LG, "perfect = all(entry['ok'] is True for entry", "perfect = all(entry['ok'] == True for entry"),
     Benign('max-as-method', LG, "        max_score = np.max(scores)", "        max_score = scores.max()"),
     Benign('log-before-validation', LG, "        self.validate_submission(answers, student_list)\n\n        # Group the inputs",
            "        self.log('checking a list')\n        self.validate_submission(answers, student_list)\n\n        # Group the inputs"),
